@@ -195,7 +195,7 @@ __CPROVER_loop_invariant(right_st == (unsigned long)g_r ==>
 __CPROVER_decreases(melem_it.n - melem_it.pos)
 //@end
 
-//@harness h_HP_prepare enforce=HamiltonianPart_prepare props=C03,C07 min_obl=100 timeout=900 reach=3
+//@harness h_HP_prepare enforce=HamiltonianPart_prepare props=C03,C07 min_obl=1390 timeout=600 reach=3
 void h_HP_prepare(void)
 {
   struct HamiltonianPart *p;
@@ -227,7 +227,7 @@ __CPROVER_ensures((__CPROVER_old(self->Status) < Computed && self->H.rows > 1 &&
                   d_finite(self->Eigenvalues.data[eig_g_b]))
 //@end
 
-//@harness h_HP_compute enforce=HamiltonianPart_compute props=C03 min_obl=100 timeout=600 reach=3 defs=-DVERIF_FP_IEEE
+//@harness h_HP_compute enforce=HamiltonianPart_compute props=C03 min_obl=534 timeout=300 reach=3 defs=-DVERIF_FP_IEEE
 void h_HP_compute(void)
 {
   struct HamiltonianPart *p;
@@ -246,7 +246,7 @@ __CPROVER_assigns(VERIF_thrown)
 __CPROVER_ensures(VERIF_thrown == (self->Status < Computed))
 __CPROVER_ensures(!VERIF_thrown ==> D_SAME(__CPROVER_return_value, self->Eigenvalues.data[state]))
 //@end
-//@harness h_HP_getEigenValue enforce=HamiltonianPart_getEigenValue props=C03 min_obl=20 reach=2
+//@harness h_HP_getEigenValue enforce=HamiltonianPart_getEigenValue props=C03 min_obl=102 reach=2 timeout=60
 void h_HP_getEigenValue(void)
 {
   struct HamiltonianPart *p; unsigned long s;
@@ -272,7 +272,7 @@ __CPROVER_ensures(!VERIF_thrown ==> (0 <= dense_g_minpos && dense_g_minpos < sel
 /* (the ghost position of the minCoeff contract instantiated at 0) */
 __CPROVER_ensures((!VERIF_thrown && dense_g_k == 0) ==> D_EQ(__CPROVER_return_value, self->Eigenvalues.data[0]))
 //@end
-//@harness h_HP_getMinimumEigenvalue enforce=HamiltonianPart_getMinimumEigenvalue props=C03 min_obl=20 reach=2 defs=-DVERIF_FP_IEEE
+//@harness h_HP_getMinimumEigenvalue enforce=HamiltonianPart_getMinimumEigenvalue props=C03 min_obl=224 reach=2 defs=-DVERIF_FP_IEEE timeout=60
 void h_HP_getMinimumEigenvalue(void)
 {
   struct HamiltonianPart *p;
@@ -289,10 +289,23 @@ __CPROVER_assigns(VERIF_thrown)
 __CPROVER_ensures(VERIF_thrown == (self->S.Status < Computed))
 __CPROVER_ensures(!VERIF_thrown ==> __CPROVER_return_value == HP_BLOCKSIZE(self))
 //@end
-//@harness h_HP_getSize enforce=HamiltonianPart_getSize props=C03 min_obl=10 reach=2
+//@harness h_HP_getSize enforce=HamiltonianPart_getSize props=C03 min_obl=114 reach=2 timeout=60
 void h_HP_getSize(void)
 {
   struct HamiltonianPart *p;
   HamiltonianPart_getSize(p);
   if (VERIF_thrown) REACH("thrown"); else REACH("value");
 }
+
+/* ---- mutation record (each mutant applied to a private copy of the tree, re-extracted, harness re-run) --------------------
+ * h_HP_prepare:  H(left_st,right_st)=melem -> H(right_st,left_st)=melem   FAIL prepare.loop_invariant_step.3/.4/.7 (ghost cells)
+ *                H.setZero() removed                                       FAIL prepare.loop_invariant_base.3/.4 (zero clause)
+ *                right_st=0 -> right_st=1                                  FAIL prepare.postcondition.3 (H(pos(bra),r)==melem), loop_invariant_base.4
+ * h_HP_compute:  H(0,0)=1 -> H(0,0)=0                                      FAIL compute.postcondition.3 (1x1: eigenvector = 1)
+ *                H.rows()==1 -> H.rows()==2                                FAIL compute.postcondition.2/.3/.4/.5
+ *                `if (Status >= Computed) return;` removed                 FAIL RealVector_assign.assigns.*, RealMatrix_assign.assigns.* (frame of the no-op path)
+ *                Eigenvalues = -Solver.eigenvalues()                       UNDECIDED (extraction break: unary minus on a vector has no model)
+ * h_HP_getEigenValue:       Eigenvalues(state) -> Eigenvalues(0)           FAIL getEigenValue.postcondition.2
+ * h_HP_getMinimumEigenvalue: Status<Computed -> Status<Prepared            FAIL getMinimumEigenvalue.postcondition.1/.2
+ * h_HP_getSize:             getBlockSize(Block) -> getBlockSize(0)         UNDECIDED (goto-cc: BlockNumber(int) not extracted in this spec)
+ */
